@@ -29,7 +29,7 @@ def main():
             if rc != 0:
                 print(f"{name}: PATCH DOES NOT APPLY"); return 3
             rebased = True
-        rc, o = sh("git diff", wt)
+        rc, o = sh("git add -N . && git diff", wt)  # -N: new files count too
         applied = o
         rc, o = sh("go build ./... && go test -vet=off -count=1 ./...", wt)
         out["suite_with_patch"] = "pass" if rc == 0 else "FAIL"
@@ -58,7 +58,8 @@ def main():
         rc1, o1 = sh(meta["demo_cmd"], wt, timeout=900)
         out["demo_with_patch"] = "fails" if rc1 != 0 else "PASSES"
         # demo without patch
-        sh("git checkout -- . ", wt)
+        open(os.path.join(wt, ".applied.diff"), "w").write(applied)
+        sh("git reset -q; git apply -R .applied.diff || git checkout -- . ; rm -f .applied.diff", wt)
         rc2, o2 = sh(meta["demo_cmd"], wt, timeout=900)
         out["demo_without_patch"] = "passes" if rc2 == 0 else "FAILS"
         ok = rc1 != 0 and rc2 == 0
